@@ -1132,7 +1132,12 @@ func (e *Exec) nopanic(st *State, what string, in ssa.Instruction, goal string) 
 	if goal != "true" {
 		pos := in.Pos()
 		anchor := what + "@" + e.srcAnchor(fr, in)
-		e.oblige(st, "nopanic", anchor, e.nopanicProps, what, goal, pos)
+		props := e.nopanicProps
+		if (what == "sendclosed" || what == "doubleclose" || what == "closenil") && len(props) > 0 && !contains(props, "C15") {
+			// panics of channel operations are what concurrent use provokes: also part of C15
+			props = append(append([]string(nil), props...), "C15")
+		}
+		e.oblige(st, "nopanic", anchor, props, what, goal, pos)
 	}
 	st.assume(goal)
 }
